@@ -309,3 +309,11 @@ RULES = [
     ("C04.f", "single-threaded loop runs until the queue is empty", rule_f),
     ("C04.g", "lost-wake guard in Runnable::run", rule_g),
 ]
+
+
+def rule_inventory(ctx):
+    from . import inventory
+    inventory.check(ctx, ['file:st_executor', 'file:mt_executor', 'file:injector', 'task-set-take'])
+
+
+RULES.append(("C04.m", "state-mutation inventory: no new site that changes the content of the state this property rests on", rule_inventory))
